@@ -35,6 +35,13 @@ package main
 //   Z:<ms>               SIGSTOP, <ms> ms, SIGCONT
 //   R:<n>:<fault>:<us>:<arg>  all clients post n messages each concurrently; <us> microseconds after the start
 //                        fault = none | kill (restart with delay <arg>) | pause (<arg> ms) | snap
+//   RI:<k>:<mode>:<us>   D14 (restart + immediate retry): client k posts one message; the moment the 200
+//                        arrives the answer is dropped and the node is SIGKILLed (the first copy is durable, last in the log);
+//                        the node is restarted WITHOUT the Barrier (mode 1: announced as soon as raft.State()==Leader, mode 2: as
+//                        soon as the listener is up, which is what main() does) and the client repeats the same body every 200 us;
+//                        <us> > 0 additionally wraps the FSM handed to raft so that every FSM.Apply sleeps <us> microseconds first.
+//                        A 4xx answer to the retry (session not yet replayed) ends the client (refused_while_replaying);
+//                        the scenario goes on when the child reports that it has replayed its log (file caughtup-<run>)
 //   G                    every client fetches the increment of its stream (resume protocol: lastseen=<last id seen>)
 //   (end of line)        G, then every client fetches its whole stream (lastseen=0.0)
 // Every POST carries a client message id and is repeated with the SAME id until HTTP 200 (bounded
@@ -98,6 +105,17 @@ func (s vsSlowStore) StoreLogs(ls []*raft.Log) error {
 	return s.LogStore.StoreLogs(ls)
 }
 
+// vsSlowFSM delays every Apply (D14 probe only, $VERIF_SYS_APPLY_DELAY_US); Snapshot/Restore are the real ones.
+type vsSlowFSM struct {
+	*FSM
+	d time.Duration
+}
+
+func (f vsSlowFSM) Apply(l *raft.Log) interface{} {
+	time.Sleep(f.d)
+	return f.FSM.Apply(l)
+}
+
 func vsChildFail(format string, a ...interface{}) {
 	fmt.Fprintf(os.Stderr, "sysdrv child: "+format+"\n", a...)
 	os.Exit(3)
@@ -121,6 +139,8 @@ func TestVerifSysChild(t *testing.T) {
 	first := os.Getenv("VERIF_SYS_FIRST") == "1"
 	run := os.Getenv("VERIF_SYS_RUN")
 	delayUs, _ := strconv.Atoi(os.Getenv("VERIF_SYS_DELAY_US"))
+	applyDelayUs, _ := strconv.Atoi(os.Getenv("VERIF_SYS_APPLY_DELAY_US"))
+	noBarrier := os.Getenv("VERIF_SYS_NOBARRIER")
 
 	*raftDir = dir
 	*network = vsNetwork
@@ -187,6 +207,10 @@ func TestVerifSysChild(t *testing.T) {
 		ReplaceState: func(*ircserver.IRCServer, *raftstore.LevelDBStore, *outputstream.OutputStream) {
 		},
 	}
+	var raftFSM raft.FSM = fsm
+	if applyDelayUs > 0 {
+		raftFSM = vsSlowFSM{FSM: fsm, d: time.Duration(applyDelayUs) * time.Microsecond}
+	}
 	var forRaft raft.LogStore = logStore
 	if delayUs > 0 {
 		forRaft = vsSlowStore{LogStore: logStore, d: time.Duration(delayUs) * time.Microsecond}
@@ -198,7 +222,7 @@ func TestVerifSysChild(t *testing.T) {
 
 	if !bootstrapping {
 		configCopy := *config
-		cfg, err := raft.GetConfiguration(&configCopy, fsm, logcache, logStore, fss, transport)
+		cfg, err := raft.GetConfiguration(&configCopy, raftFSM, logcache, logStore, fss, transport)
 		if err != nil {
 			vsChildFail("GetConfiguration: %v", err)
 		}
@@ -209,7 +233,7 @@ func TestVerifSysChild(t *testing.T) {
 		// consults the time safeguard otherwise; both skipped.
 	}
 
-	node, err = raft.NewRaft(config, fsm, logcache, logStore, fss, transport)
+	node, err = raft.NewRaft(config, raftFSM, logcache, logStore, fss, transport)
 	if err != nil {
 		vsChildFail("NewRaft: %v", err)
 	}
@@ -253,15 +277,18 @@ func TestVerifSysChild(t *testing.T) {
 	go srv.Serve(ln)
 
 	// announce readiness only when leader and caught up (handler_caught_up)
+	// (D14 probe: VERIF_SYS_NOBARRIER=1 announces at leadership, =2 as soon as the listener is up, like main())
 	deadline := time.Now().Add(30 * time.Second)
-	for node.State() != raft.Leader {
+	for noBarrier != "2" && node.State() != raft.Leader {
 		if time.Now().After(deadline) {
 			vsChildFail("single-node raft did not become leader")
 		}
-		time.Sleep(time.Millisecond)
+		time.Sleep(100 * time.Microsecond)
 	}
-	if err := node.Barrier(30 * time.Second).Error(); err != nil {
-		vsChildFail("Barrier: %v", err)
+	if noBarrier == "" {
+		if err := node.Barrier(30 * time.Second).Error(); err != nil {
+			vsChildFail("Barrier: %v", err)
+		}
 	}
 	port := ln.Addr().(*net.TCPAddr).Port
 	tmp := filepath.Join(dir, "ready.tmp")
@@ -270,6 +297,19 @@ func TestVerifSysChild(t *testing.T) {
 	}
 	if err := os.Rename(tmp, filepath.Join(dir, "ready-"+run)); err != nil {
 		vsChildFail("%v", err)
+	}
+	if noBarrier != "" {
+		// announced early; tell the parent when the log has been replayed, so that only the
+		// scripted retry races the replay
+		for node.State() != raft.Leader {
+			time.Sleep(100 * time.Microsecond)
+		}
+		if err := node.Barrier(60 * time.Second).Error(); err != nil {
+			vsChildFail("Barrier: %v", err)
+		}
+		if err := os.WriteFile(filepath.Join(dir, "caughtup-"+run), []byte("1"), 0600); err != nil {
+			vsChildFail("%v", err)
+		}
 	}
 	for {
 		time.Sleep(time.Second)
@@ -295,6 +335,8 @@ type vsSrv struct {
 	done     chan struct{}
 	crashes  []string
 	delayUs  int
+	nextNoBarrier  int // D14 probe: options of the next start only
+	nextApplyDelay int
 	crashed  bool // the child died unscripted while it was serving; waitUp restarts it
 	dead     bool // gave up restarting
 }
@@ -334,6 +376,13 @@ func (s *vsSrv) start(delayUs int) error {
 	cmd.Env = append(os.Environ(),
 		"VERIF_SYS_CHILD="+s.dir, "VERIF_SYS_RUN="+strconv.Itoa(run),
 		"VERIF_SYS_DELAY_US="+strconv.Itoa(delayUs))
+	if s.nextNoBarrier > 0 {
+		cmd.Env = append(cmd.Env, "VERIF_SYS_NOBARRIER="+strconv.Itoa(s.nextNoBarrier))
+	}
+	if s.nextApplyDelay > 0 {
+		cmd.Env = append(cmd.Env, "VERIF_SYS_APPLY_DELAY_US="+strconv.Itoa(s.nextApplyDelay))
+	}
+	s.nextNoBarrier, s.nextApplyDelay = 0, 0
 	if first {
 		cmd.Env = append(cmd.Env, "VERIF_SYS_FIRST=1")
 	} else {
@@ -490,6 +539,7 @@ type vsClient struct {
 	Created  bool       `json:"created"`
 	Joined   bool       `json:"joined"`
 	Dead     string     `json:"dead,omitempty"`
+	Refused  bool       `json:"refused_while_replaying"`
 	Acks     []vsAck    `json:"posts"`
 	Live     [][]string `json:"live"`
 	Full     [][]string `json:"full"`
@@ -545,6 +595,8 @@ func vsErrKind(err error) string {
 
 type vsPostOpt struct {
 	dropFirstAck bool
+	onFirst200   func() // called when the answer that is going to be dropped arrives
+	tight        bool   // D14 probe: repeat every 200 us, many attempts
 	onWrote      func()
 	onAck        func()
 }
@@ -561,7 +613,16 @@ func (c *vsCase) post(cl *vsClient, data string, opt vsPostOpt) vsAck {
 	rec := vsAck{Text: data}
 	backoff := 2 * time.Millisecond
 	dropped := false
-	for rec.Attempts < 200 {
+	maxAttempts := 200
+	if opt.tight {
+		maxAttempts = 50000
+	}
+	note := func(f string) {
+		if len(rec.Fails) < 12 || !opt.tight {
+			rec.Fails = append(rec.Fails, f)
+		}
+	}
+	for rec.Attempts < maxAttempts {
 		base, err := c.srv.waitUp(c.ctx)
 		if err != nil {
 			rec.Fails = append(rec.Fails, "node:"+vsErrKind(err))
@@ -586,6 +647,9 @@ func (c *vsCase) post(cl *vsClient, data string, opt vsPostOpt) vsAck {
 					dropped = true
 					rec.Dropped = true
 					rec.Fails = append(rec.Fails, "answer-dropped")
+					if opt.onFirst200 != nil {
+						opt.onFirst200()
+					}
 					continue
 				}
 				rec.Acked = true
@@ -594,16 +658,24 @@ func (c *vsCase) post(cl *vsClient, data string, opt vsPostOpt) vsAck {
 				}
 				return rec
 			}
-			rec.Fails = append(rec.Fails, fmt.Sprintf("status-%d:%s", resp.StatusCode, strings.TrimSpace(string(b))))
+			if resp.StatusCode >= 400 && resp.StatusCode < 500 {
+				rec.Fails = append(rec.Fails, fmt.Sprintf("status-%d:%s", resp.StatusCode, strings.TrimSpace(string(b))))
+			} else {
+				note(fmt.Sprintf("status-%d:%s", resp.StatusCode, strings.TrimSpace(string(b))))
+			}
 			if resp.StatusCode >= 400 && resp.StatusCode < 500 {
 				// the protocol treats 4xx as final: the session is gone
 				return rec
 			}
 		} else {
-			rec.Fails = append(rec.Fails, vsErrKind(err))
+			note(vsErrKind(err))
 			if c.ctx.Err() != nil {
 				return rec
 			}
+		}
+		if opt.tight {
+			time.Sleep(200 * time.Microsecond)
+			continue
 		}
 		time.Sleep(backoff)
 		if backoff < 100*time.Millisecond {
@@ -959,6 +1031,82 @@ func (c *vsCase) step(tok string) bool {
 			<-finished
 			if !ok {
 				return false
+			}
+		}
+	case "RI":
+		if cl := c.clients[vsAtoi(arg(1))]; cl != nil {
+			got := make(chan struct{}, 1)
+			finished := make(chan struct{})
+			cl.mu.Lock()
+			nposts := len(cl.Acks)
+			cl.mu.Unlock()
+			go func() {
+				defer close(finished)
+				c.privmsg(cl, vsPostOpt{dropFirstAck: true, tight: true, onFirst200: func() {
+					c.srv.mu.Lock()
+					c.srv.expected = true
+					c.srv.up = false
+					p := c.srv.cmd
+					c.srv.mu.Unlock()
+					if p != nil && p.Process != nil {
+						p.Process.Signal(syscall.SIGKILL)
+					}
+					got <- struct{}{}
+				}})
+			}()
+			select {
+			case <-got:
+			case <-finished:
+			}
+			c.srv.kill()
+			c.srv.mu.Lock()
+			c.srv.nextNoBarrier, c.srv.nextApplyDelay = vsAtoi(arg(2)), vsAtoi(arg(3))
+			c.srv.mu.Unlock()
+			t0 := time.Now()
+			ok := c.restart(0)
+			announced := time.Since(t0)
+			<-finished
+			att, outcome := 0, "none"
+			cl.mu.Lock()
+			if n := len(cl.Acks); n > nposts {
+				last := cl.Acks[n-1]
+				att = last.Attempts
+				switch {
+				case last.Acked:
+					outcome = "acked"
+				case last.Dropped && len(last.Fails) > 0 && strings.HasPrefix(last.Fails[len(last.Fails)-1], "status-4"):
+					outcome = "refused"
+					cl.Refused = true
+				default:
+					outcome = "failed"
+				}
+			}
+			cl.mu.Unlock()
+			c.event("RI:mode=%s:%s:announced_ms=%d:retry_done_ms=%d:attempts=%d", arg(2), outcome, announced.Milliseconds(), time.Since(t0).Milliseconds(), att)
+			if !ok {
+				return false
+			}
+			// go on only when the node has replayed its log
+			c.srv.mu.Lock()
+			cu := filepath.Join(c.srv.dir, "caughtup-"+strconv.Itoa(c.srv.run))
+			done := c.srv.done
+			c.srv.mu.Unlock()
+			deadline := time.Now().Add(90 * time.Second)
+			for {
+				if _, err := os.Stat(cu); err == nil {
+					break
+				}
+				stop := false
+				select {
+				case <-done:
+					stop = true
+				default:
+				}
+				if stop || time.Now().After(deadline) || c.ctx.Err() != nil {
+					c.fail("RI: the restarted node did not report that it replayed its log")
+					return false
+				}
+				time.Sleep(500 * time.Microsecond)
 			}
 		}
 	case "K":
